@@ -94,6 +94,17 @@ func genTrial(prop, variant string, seed uint64, i int) TrialCfg {
 			c.Churn = 0
 		}
 		c.Ops = 30 + r.Intn(120)
+		if r.Chance(1, 10) {
+			// a stalled pool: maintenance tasks are only queued, the write buffer (128 x rounded CPU count
+			// slots) fills up and writers apply their own event under the eviction lock
+			c.Exec = ExecQueued
+			if c.SizeKind == 0 {
+				c.SizeKind = 1
+				c.Max = uint64(1 + r.Intn(40))
+			}
+			c.Ops = 2600/c.G + r.Intn(300)
+			c.Churn = 0
+		}
 	case "C14":
 		c.Exec = ExecDefault
 		if c.SizeKind == 0 {
@@ -303,9 +314,9 @@ func judge(col *core.Collector, t *Trial, prop string) (violation string, nontri
 	}
 	// one CleanUp, then wait for the executor
 	t.Cache.CleanUp()
-	t.wg.Wait()
+	t.Settle()
 	f := t.Gather()
-	t.wg.Wait()
+	t.Settle()
 	evs := t.Events()
 	autos := 0
 	for _, e := range evs {
